@@ -355,7 +355,25 @@ impl Rw {
                     let cpat = strip_mut(&cp);
                     let cid = pat_ident(&cp)?;
                     let mut out: Vec<Stmt> = vec![];
-                    out.push(parse_quote!(let mut #res = __vp_ok_unit();));
+                    // keep the declared error type: `Result<Vec<()>, E>` becomes `Result<(), E>`
+                    let mut err_ty: Option<syn::Type> = None;
+                    if let Pat::Type(pt) = &l.pat {
+                        if let syn::Type::Path(tp) = &*pt.ty {
+                            if let Some(seg) = tp.path.segments.last() {
+                                if let syn::PathArguments::AngleBracketed(ab) = &seg.arguments {
+                                    if ab.args.len() == 2 {
+                                        if let syn::GenericArgument::Type(t) = &ab.args[1] {
+                                            err_ty = Some(t.clone());
+                                        }
+                                    }
+                                }
+                            }
+                        }
+                    }
+                    match err_ty {
+                        Some(t) => out.push(parse_quote!(let mut #res: Result<(), #t> = __vp_ok_unit();)),
+                        None => out.push(parse_quote!(let mut #res = __vp_ok_unit();)),
+                    }
                     let start: Expr = match &skip { Some(a) => parse_quote!(#a), None => parse_quote!(0) };
                     match &take {
                         Some(b) => out.push(parse_quote!(let __n = __vp_take_bound(#base.ncols(), #start, #b);)),
